@@ -12,5 +12,5 @@ cd /verif && VERIF_REPO="$wt" VERIF_OUT="$out" ./check "$id" "$tier" 2>&1 | grep
 rc=${PIPESTATUS[0]}
 echo "SEED-RESULT rc=$rc"
 git -C /repo worktree remove --force "$wt"
-rm -rf "$out" /verif/.build/$id-*
+rm -rf "$out" "/verif/.build/$id-$(printf %s "$wt" | sha1sum | cut -c1-8)"
 exit $rc
